@@ -589,7 +589,7 @@ class SvBadCtxProc(ContextProcessor):
 
 LEAF_NAMES = [
     "SvSource", "SvSourceDefault", "SvPayloadSource", "SvAdd", "SvAddDefault", "SvMul",
-    "SvMulDefault", "SvAffine", "SvClip", "SvPoly", "SvJitter", "SvSlow", "SvCaseOp", "SvScaleInPlace", "SvToStream", "SvStreamSum", "SvNeedsSubFloat", "SvRaiseOdd", "SvProbeNone", "SvWrongOutput", "SvWriteThenFail", "SvCtxWriterOpaque", "SvCtxWriterArray", "SvCtxWriterMixedKeys", "SvAppendInPlace", "SvCtxWriterFlag", "SvCtxWriterA", "SvCtxWriterB", "SvBadWriter", "SvToText",
+    "SvMulDefault", "SvAffine", "SvClip", "SvPoly", "SvJitter", "SvSlow", "SvCaseOp", "SvScaleInPlace", "SvToStream", "SvStreamSum", "SvNeedsSubFloat", "SvRaiseOdd", "SvProbeNone", "SvWrongOutput", "SvWriteThenFail", "SvCtxWriterOpaque", "SvCtxWriterArray", "SvCtxWriterMixedKeys", "SvAppendInPlace", "SvUseModel", "SvCtxWriterFlag", "SvCtxWriterA", "SvCtxWriterB", "SvBadWriter", "SvToText",
     "SvTextLen", "SvBumpLast", "SvCollSum", "SvProbe", "SvProbeParam", "SvProbeDefault", "SvFileSink",
     "SvNullSink", "SvPayloadSink", "SvCtxCombine", "SvBadCtxProc",
 ]
@@ -610,3 +610,31 @@ def register() -> None:
         ExecutionComponentRegistry.register_orchestrator("SvOrchestrator", SvOrchestrator)
     except Exception:  # pragma: no cover
         raise
+
+
+# ---------------------------------------------------------------- a stateful object handed in through a `model:` descriptor
+from semantiva.workflows.fitting_model import FittingModel  # noqa: E402
+
+
+class SvOnlineMean(FittingModel):
+    """Keeps running sums between calls: whoever receives an instance some earlier run already used sees that run's data."""
+
+    def __init__(self, bias: float = 0.0):
+        self.bias = float(bias)
+        self.n = 0
+        self.total = 0.0
+
+    def fit(self, x_values, y_values):
+        for y in y_values:
+            self.n += 1
+            self.total += float(y)
+        return {"mean": self.total / max(1, self.n) + self.bias, "n": float(self.n)}
+
+
+class SvUseModel(_FloatOp):
+    """Feeds its input to the model object it was configured with and adds the model's running mean and sample count."""
+
+    def _process_logic(self, data, model, gain: float = 1.0):
+        _invoke("SvUseModel", {"model": type(model).__name__, "gain": gain}, data)
+        r = model.fit([0.0], [float(data.data) * float(gain)])
+        return FloatDataType(data.data + r["mean"] + 1000.0 * r["n"])
